@@ -278,8 +278,9 @@ PROPS["C11"] = dict(PROPS["C01"], lean=["Gengo.Props.C11"],
                "addition and never a mere dependency - so every split and order of a request set ends with the same set of scanned and "
                "stub packages as one combined load; visiting a package unknown to the type checker fails; the input list is the sorted "
                "request set. PARTIAL: that the content recorded for a scanned package does not depend on the order is C01's walk invariant "
-               "(proved on the prototype model, port to the full model in progress); v1's Builder is modelled and compared but has no "
-               "separate theorems. The complete universes of random splits/orders are compared on the real loaders with the model and "
+               "(proved on the prototype model only, see C01). v1 Builder: findTypesIn leaves the state untouched for a package that "
+               "was not requested, scans exactly the scope of a requested one, fails for a package the type checker does not know; "
+               "FindTypes and AddDirTo keep / extend the request set. The complete universes of random splits/orders are compared on the real loaders with the model and "
                "with one combined load.",
     rule="generated modules of 1..5 packages with import DAGs (some packages only dependencies); a non-empty request set is split at random "
          "into an initial load and ordered incremental loads (v2: LoadPackages + NewUniverse + LoadPackagesTo in a scratch module; v1: "
